@@ -10,7 +10,7 @@ import shutil
 import symtable
 import sys
 
-SRC = "/repo"
+SRC = os.environ.get("XV_REPO") or "/repo"
 
 
 def rename_module(src, suffix):
@@ -157,4 +157,5 @@ def main():
     print(f"renamed {n_edits} name occurrences in {n_files} files")
 
 
-main()
+if __name__ == "__main__":
+    main()
